@@ -89,9 +89,21 @@ func ruleC19Index(c *Checker) {
 			if !ok {
 				// named exception
 				e := ix.exprAt(in.Pos(), "")
-				if m, have := indexExceptions[name]; have {
+				for anchor, m := range indexExceptions {
+					// the exception applies in the named function and in its private helpers
+					applies := anchor == name
+					if !applies {
+						for _, af := range p.Funcs {
+							if p.FuncName(af) == anchor && p.family(af)[fn] {
+								applies = true
+							}
+						}
+					}
+					if !applies {
+						continue
+					}
 					if reason, have := m[e]; have {
-						usedExc[name+"|"+e] = true
+						usedExc[anchor+"|"+e] = true
 						c.passTrivial(R, name, construct, p.Pos(in.Pos()), "named exception: "+reason)
 						return
 					}
